@@ -107,14 +107,15 @@ class CandleManager:
 
     @staticmethod
     def _raw_copies(candles: List[Candle]) -> List[Candle]:
-        """Deep copies of the candles with any candlestick conversion undone, Candle objects
-        may have already been converted in place by another manager sharing them"""
+        """Deep copies of the candles with any candlestick conversion undone and without the
+        readings of the manager they come from, Candle objects may have already been converted
+        in place and calculated on by another manager sharing them"""
         copies = deepcopy(candles)
         for candle in copies:
             if candle.tag:
                 candle.recover_clean_values()
                 candle.clean_values = {}
-                candle.reset_candle()
+            candle.reset_candle()
         return copies
 
     def trim_candles(self):
